@@ -1,14 +1,14 @@
 (* C16: every connection attempt of a round trip, retries included, goes to a target that the
    resolution of the ORIGINAL server name produced, with that target's Host and SNI. *)
 From Verif Require Import Lib.Bytes Net.IpC16 Net.ServerNameC16 Net.Resolve Net.ResolveSpec
-     Net.ResolveProofs Net.RoundTrip.
+     Net.ResolveProofs Net.RoundTrip Net.PolicySpec Net.PolicyProofs.
 Open Scope N_scope.
 
-Lemma try_targets_in dead : forall l k t o,
+Lemma try_targets_in (dead : target -> bool) : forall l k t o,
   In (t, o) (fst (fst (try_targets dead l k))) -> In t l.
 Proof.
   induction l as [|x r IH]; intros k t o H; simpl in H; [contradiction|].
-  destruct (mem_bytes (port_of (t_dest x)) dead).
+  destruct (dead x).
   - destruct (try_targets dead r k) as [[rest k'] ok] eqn:E. simpl in H.
     destruct H as [H|H]; [inversion H; subst; left; reflexivity|].
     right. apply (IH k t o). rewrite E. exact H.
@@ -19,12 +19,12 @@ Proof.
     + simpl in H. destruct H as [H|[]]. inversion H; subst. left. reflexivity.
 Qed.
 
-Lemma try_targets_ok_last dead : forall l k,
+Lemma try_targets_ok_last (dead : target -> bool) : forall l k,
   snd (try_targets dead l k) = true ->
   exists t, In (t, AOk) (fst (fst (try_targets dead l k))).
 Proof.
   induction l as [|x r IH]; intros k H; simpl in *; [discriminate|].
-  destruct (mem_bytes (port_of (t_dest x)) dead).
+  destruct (dead x).
   - destruct (try_targets dead r k) as [[rest k'] ok] eqn:E. simpl in *.
     destruct (IH k) as [t Ht]; [rewrite E; exact H|]. rewrite E in Ht. exists t. right. exact Ht.
   - destruct (0 <? k).
@@ -132,4 +132,58 @@ Proof.
   pose proof (attempts_are_usable true dead name _ None k r t o Hr Hin) as Hu.
   simpl in Hu. destruct Hu as [(l' & Hc & _)|(l' & Hres & Hl')]; [discriminate|].
   rewrite <- Hspec in Hres. inversion Hres; subst. exact Hl'.
+Qed.
+
+(* ---------- every connection is policed ---------- *)
+Lemma try_targets_unblocked (blocked : target -> bool) : forall l k t o,
+  In (t, o) (fst (fst (try_targets blocked l k))) -> o <> ARefused -> blocked t = false.
+Proof.
+  induction l as [|x r IH]; intros k t o H Ho; simpl in H; [contradiction|].
+  destruct (blocked x) eqn:Eb.
+  - destruct (try_targets blocked r k) as [[rest k'] ok] eqn:E. simpl in H.
+    destruct H as [H|H]; [inversion H; subst; contradiction|].
+    apply (IH k t o); [rewrite E; exact H|exact Ho].
+  - destruct (0 <? k).
+    + destruct (try_targets blocked r (k - 1)) as [[rest k'] ok] eqn:E. simpl in H.
+      destruct H as [H|H]; [inversion H; subst; exact Eb|].
+      apply (IH (k - 1) t o); [rewrite E; exact H|exact Ho].
+    + simpl in H. destruct H as [H|[]]. inversion H; subst. exact Eb.
+Qed.
+
+Lemma round_trip_unblocked wks blocked name resolved cache k r t o :
+  round_trip wks blocked name resolved cache k = Some r ->
+  In (t, o) (rt_attempts r) -> o <> ARefused -> blocked t = false.
+Proof.
+  unfold round_trip.
+  destruct (if wks then _ else _) as [[results did]|]; [|discriminate].
+  destruct (try_targets blocked results k) as [[a1 k1] ok1] eqn:E1. destruct ok1.
+  - intro H; inversion H; subst; simpl. intros Hin Ho.
+    apply (try_targets_unblocked blocked results k t o); [rewrite E1; exact Hin|exact Ho].
+  - destruct (try_targets blocked (second_pass wks results) k1) as [[a2 k2] ok2] eqn:E2.
+    intro H; inversion H; subst; simpl. intros Hin Ho. apply in_app_or in Hin as [Hin|Hin].
+    + apply (try_targets_unblocked blocked results k t o); [rewrite E1; exact Hin|exact Ho].
+    + apply (try_targets_unblocked blocked (second_pass wks results) k1 t o); [rewrite E2; exact Hin|exact Ho].
+Qed.
+
+(* every connection a round trip makes for its attempts, on either pass, is to an address the
+   allow / deny lists permit ... *)
+Theorem attempt_connections_allowed wks dead allow deny ip_of name resolved cache k r c :
+  round_trip wks (blocked_by dead allow deny ip_of) name resolved cache k = Some r ->
+  In c (attempt_connections ip_of (rt_attempts r)) ->
+  may_connect allow deny (net_of c) c.
+Proof.
+  intros Hr Hin. unfold attempt_connections in Hin. apply in_flat_map in Hin as ([t o] & Ha & Hc).
+  simpl in Hc. assert (Ho : o <> ARefused) by (destruct o; [discriminate|discriminate|contradiction]).
+  assert (Hc' : c = dest_addr ip_of (t_dest t)) by (destruct o; simpl in Hc; intuition).
+  pose proof (round_trip_unblocked _ _ _ _ _ _ _ _ _ Hr Ha Ho) as Hb.
+  unfold blocked_by in Hb. apply orb_false_iff in Hb as [_ Hb]. apply negb_false_iff in Hb.
+  subst c. apply control_allows_may_connect. exact Hb.
+Qed.
+
+(* ... and so is the connection of the .well-known request *)
+Theorem well_known_connection_allowed allow deny ip_of name c :
+  well_known_connection allow deny ip_of name = Some c -> may_connect allow deny (net_of c) c.
+Proof.
+  unfold well_known_connection. destruct (dial_allowed allow deny _) eqn:E; [|discriminate].
+  intro H; inversion H; subst. apply control_allows_may_connect. exact E.
 Qed.
